@@ -26,24 +26,44 @@ BUDGET = {"quick": (4, 500), "thorough": (16, 6000)}
 KNOWN_KINDS = {}
 
 
+STRATA = ["add", "remove", "aspirate", "dispense"]
+REQUIRED_CLASSES = ["via:add", "via:remove", "via:aspirate", "via:dispense", "2-D-volumes", "1-D-volumes-vs-2-D-wells", "repeated-well", "virtual-row-alias", "2x2-or-larger"]
+
+
 @st.composite
-def _case(draw, tier="quick"):
+def _case(draw, focus, tier="quick"):
     q = draw(st.sampled_from([0.25, 0.25, None]))
     spec = draw(lab_spec("Lab", kind=draw(st.sampled_from(["plate", "trough"])), max_rows=8, max_cols=8, regime=draw(st.sampled_from(["roomy", "tight"])), grid=bool(q), q=q or 0.01, allow_names=False))
-    op = st.fixed_dictionaries(
+    kinds = [focus] * 2 + ["add", "remove", "aspirate", "dispense"]
+    op_any = st.fixed_dictionaries(
         {
-            "op": st.sampled_from(["add", "remove", "aspirate", "dispense"]),
+            "op": st.sampled_from(kinds),
             "lw": st.just(0),
             "wells": wsel(max_n=6),
             "vols": vsel(vs_ok(q), max_n=6),
             "label": label_st,
         }
     )
+    # a genuinely 2-D call: >= 2x2 wells with pairwise different volumes given as a 2-D array or as a flat list
+    small = st.integers(1, 12).map(lambda i: i * (q or 0.37))
+    op_2d = st.fixed_dictionaries(
+        {
+            "op": st.sampled_from(kinds),
+            "lw": st.just(0),
+            "wells": st.one_of(
+                st.fixed_dictionaries({"t": st.just("slice"), "r0": st.integers(0, 7), "h": st.integers(2, 3), "c0": st.integers(0, 7), "w": st.integers(2, 3)}),
+                st.fixed_dictionaries({"t": st.just("arr2"), "w": st.lists(st.lists(st.tuples(st.integers(0, 15), st.integers(0, 23)).map(list), min_size=2, max_size=3), min_size=2, max_size=2)}),
+            ),
+            "vols": st.fixed_dictionaries({"t": st.sampled_from(["grid", "grid", "list"]), "v": st.lists(small, min_size=6, max_size=6, unique=True)}),
+            "label": label_st,
+        }
+    )
+    op = st.one_of(op_any, op_any, op_2d)
     return {"lab": spec, "device": draw(st.sampled_from(["evo", "fluent"])), "q": q, "ops": draw(st.lists(op, min_size=1, max_size=20 if tier == "quick" else 30))}
 
 
-def strategy(tier):
-    return _case(tier)
+def strategy(tier, stratum):
+    return _case(stratum, tier)
 
 
 def check_case(case) -> Obs:
@@ -112,6 +132,8 @@ def check_case(case) -> Obs:
         if conc["wells"]["t"] == "arr2":
             interesting = True
             obs.cls("2-D-wells")
+            if len(conc["wells"]["ids"]) >= 2 and len(conc["wells"]["ids"][0]) >= 2:
+                obs.cls("2x2-or-larger")
             if conc["vols"]["t"] == "arr2":
                 obs.cls("2-D-volumes")
             elif conc["vols"]["t"] == "list":
